@@ -1,3 +1,21 @@
+/-
+  Proofs.ConvData — the data-message receive path of the conversation model (Otr/Conv.lean):
+  guard structure of `processDataMessageRaw` (C02), exact frame of rejected messages (C06),
+  lift to `receiveDataMessage`, panic freedom of the data path (C13), one-step replay link (C05).
+
+  Main theorems (namespace `Otr`):
+    c02_not_encrypted, c02_unparsable, c02_bad_keys, c02_bad_mac, c02_replayed_counter,
+    replayState_frame, replayState_eq_self, replayState_eq_self_of_regressed, c02_guard, c02_tamper,
+    c06_recv_not_encrypted, c06_recv_unparsable, c06_recv_bad_keys, c06_recv_bad_mac,
+    c06_recv_replayed_counter, withErrorReply_spec,
+    extractMPIsAlloc_le, extractMPIs_length, tlv_deserialize_length, parseTlvs_length, plainDataMsg_tlvs_length,
+    c05_counter_recorded, c05_immediate_replay_rejected,
+    c13_raw_panic_sites, c13_raw_no_panic_data_path, c13_raw_no_panic, c13_receiveDataMessage_no_panic,
+    raw_preserves_smpWaitWF.
+  Helper calculus and lemmas live in namespace `Otr.ConvData` (`run'`, `wp`, `wp_exec`, frames, counters,
+  `SmpWF`/`SmpNumWF`/`SmpWaitWF` preservation by processSMPTLV, startAuthenticate, continueSMP,
+  provideAuthenticationSecret, abortAuthentication, smpWipe).
+-/
 import Otr.Conv
 import Proofs.Msg
 namespace Otr
@@ -1909,5 +1927,670 @@ theorem abortAuthentication_wf (K : Crypto) (s : MState) (h : SmpWF s.conv) :
   cases r <;> exact h3
 
 
+/-! ### SMP: no panic from a well-formed state -/
+
+/-- the values we divide by when processing SMP message 3 (our own `Pb`, `Qb`) are invertible -/
+def SmpNumWF (K : Crypto) (c : Conv) : Prop :=
+  ∀ x, c.smp.s2 = some x → K.modInv x.qb dhP ≠ none ∧ K.modInv x.pb dhP ≠ none
+
+theorem divModP_ok (K : Crypto) (l r : Nat) (h : K.modInv r dhP ≠ none) : ∃ v, divModP K l r = .ok v := by
+  unfold divModP
+  cases hm : K.modInv r dhP with
+  | none => exact absurd hm h
+  | some inv => exact ⟨_, rfl⟩
+
+theorem smp3Gen_ok (K : Crypto) (x : Nat) (s1 : Smp1State) (m2 : Smp2Msg) (r4 r5 r6 r7 : Nat)
+    (h1 : K.modInv m2.qb dhP ≠ none) (h2 : K.modInv m2.pb dhP ≠ none) (site : String) :
+    smp3Gen K x s1 m2 r4 r5 r6 r7 ≠ .panic site := by
+  intro h
+  unfold smp3Gen at h
+  obtain ⟨v1, e1⟩ := divModP_ok K (mulModP (gexp1 K r4) (K.gexp (K.gexp m2.g2b s1.a2) x)) m2.qb h1
+  obtain ⟨v2, e2⟩ := divModP_ok K (K.gexp (K.gexp m2.g3b s1.a3) r4) m2.pb h2
+  simp only [e1, e2, Res.bind_ok] at h
+  injection h
+
+theorem smp3Verify_ok (K : Crypto) (isGE : Nat → Bool) (s2 : Smp2State) (m : Smp3Msg)
+    (h1 : K.modInv s2.qb dhP ≠ none) (site : String) : smp3Verify K isGE s2 m ≠ .panic site := by
+  intro h
+  unfold smp3Verify at h
+  obtain ⟨v1, e1⟩ := divModP_ok K m.qa s2.qb h1
+  split at h
+  · injection h
+  · split at h
+    · injection h
+    · simp only [e1, Res.bind_ok] at h
+      injection h
+
+theorem smp3Success_ok (K : Crypto) (s2 : Smp2State) (m : Smp3Msg)
+    (h1 : K.modInv s2.pb dhP ≠ none) (site : String) : smp3Success K s2 m ≠ .panic site := by
+  intro h
+  unfold smp3Success at h
+  obtain ⟨v1, e1⟩ := divModP_ok K m.pa s2.pb h1
+  simp only [e1, Res.bind_ok] at h
+  injection h
+
+theorem smp4Gen_ok (K : Crypto) (s2 : Smp2State) (m3 : Smp3Msg) (r7 : Nat)
+    (h1 : K.modInv s2.qb dhP ≠ none) (site : String) : smp4Gen K s2 m3 r7 ≠ .panic site := by
+  intro h
+  unfold smp4Gen at h
+  obtain ⟨v1, e1⟩ := divModP_ok K m3.qa s2.qb h1
+  simp only [e1, Res.bind_ok] at h
+  injection h
+
+theorem smpState_of_getD (o : Option SmpState) (x : SmpState) (h : o.getD .expect1 = x) (hx : x ≠ .expect1) :
+    o = some x := by
+  cases o with
+  | none => exact absurd h.symm hx
+  | some y => simp at h; rw [h]
+
+theorem of_not_bnot (b : Bool) (h : ¬ (!b) = true) : b = true := by
+  cases b
+  · exact absurd rfl h
+  · rfl
+
+theorem smp2Verify_ge (K : Crypto) (isGE : Nat → Bool) (s1 : Smp1State) (m : Smp2Msg)
+    (h : smp2Verify K isGE s1 m = true) : isGE m.pb = true ∧ isGE m.qb = true := by
+  unfold smp2Verify at h
+  simp only [Bool.and_eq_true] at h
+  exact ⟨h.1.1.1.1.2, h.1.1.1.2⟩
+
+theorem smpBody_safe (K : Crypto) (t : Tlv) (isGE : Nat → Bool) (s : MState)
+    (hwf : SmpWF s.conv) (hnum : SmpNumWF K s.conv) (hv : s.conv.version ≠ none)
+    (hinv : ∀ a, a % dhP ≠ 0 → K.modInv a dhP ≠ none) (hge : ∀ n, isGE n = true → n % dhP ≠ 0) :
+    wp (smpBody K t ((s.conv.smp.state).getD .expect1) isGE)
+      (fun _ s' => SmpWF s'.conv ∧ SmpNumWF K s'.conv) (fun _ => False) s := by
+  unfold smpBody
+  simp only [setSmpState, smpEvent, smpEventQ, smpWipe, smpAbortWith, optNat, paramLen]
+  wp_exec
+  all_goals first
+    | exact ⟨hwf, hnum⟩
+    | (refine ⟨?_, ?_⟩ <;> simp_all [SmpWF, SmpNumWF]; done)
+    | exact (hwf.1 (smpState_of_getD _ _ ‹_ = SmpState.expect2› (by decide))).1 ‹s.conv.smp.s1 = none›
+    | exact (hwf.1 (smpState_of_getD _ _ ‹_ = SmpState.expect2› (by decide))).2 ‹s.conv.smp.secret = none›
+    | exact hv ‹s.conv.version = none›
+    | exact hwf.2.1 (smpState_of_getD _ _ ‹_ = SmpState.expect3› (by decide)) ‹s.conv.smp.s2 = none›
+    | exact smp3Verify_ok K _ _ _ (hnum _ ‹s.conv.smp.s2 = some _›).1 _ ‹smp3Verify _ _ _ _ = Res.panic _›
+    | exact smp3Success_ok K _ _ (hnum _ ‹s.conv.smp.s2 = some _›).2 _ ‹smp3Success _ _ _ = Res.panic _›
+    | exact smp4Gen_ok K _ _ _ (hnum _ ‹s.conv.smp.s2 = some _›).1 _ ‹smp4Gen _ _ _ _ = Res.panic _›
+    | skip
+  · have hnv := ‹¬(!smp2Verify K isGE _ _) = true›
+    have hpan := ‹smp3Gen K _ _ _ _ _ _ _ = Res.panic _›
+    have hver := of_not_bnot _ hnv
+    obtain ⟨hpb, hqb⟩ := smp2Verify_ge _ _ _ _ hver
+    exact smp3Gen_ok K _ _ _ _ _ _ _ (hinv _ (hge _ hqb)) (hinv _ (hge _ hpb)) _ hpan
+  · have hst := ‹_ = SmpState.expect4›
+    have hall := ‹∀ (s1 : Smp1State) (s3 : Smp3State), _ → _ → False›
+    obtain ⟨h1, h3⟩ := hwf.2.2 (smpState_of_getD _ _ hst (by decide))
+    cases e1 : s.conv.smp.s1 with
+    | none => exact h1 e1
+    | some a =>
+      cases e3 : s.conv.smp.s3 with
+      | none => exact h3 e3
+      | some b => exact hall a b e1 e3
+
+
+theorem smpBody_safe' (K : Crypto) (t : Tlv) (st : SmpState) (isGE : Nat → Bool) (s : MState)
+    (hst : st = (s.conv.smp.state).getD .expect1)
+    (hwf : SmpWF s.conv) (hnum : SmpNumWF K s.conv) (hv : s.conv.version ≠ none)
+    (hinv : ∀ a, a % dhP ≠ 0 → K.modInv a dhP ≠ none) (hge : ∀ n, isGE n = true → n % dhP ≠ 0) :
+    wp (smpBody K t st isGE)
+      (fun _ s' => SmpWF s'.conv ∧ SmpNumWF K s'.conv) (fun _ => False) s := by
+  subst hst; exact smpBody_safe K t isGE s hwf hnum hv hinv hge
+
+theorem isGroupElement_mod (n : Nat) (h : isGroupElement n = true) : n % dhP ≠ 0 := by
+  unfold isGroupElement at h
+  simp only [Bool.and_eq_true, decide_eq_true_eq] at h
+  rw [Nat.mod_eq_of_lt (by omega)]
+  omega
+
+theorem wp_and {α} (x : M α) (Q1 Q2 : Except Err α → MState → Prop) (S1 S2 : String → Prop) (s : MState)
+    (h1 : wp x Q1 S1 s) (h2 : wp x Q2 S2 s) :
+    wp x (fun r s' => Q1 r s' ∧ Q2 r s') (fun site => S1 site ∧ S2 site) s := by
+  unfold wp at *
+  revert h1 h2
+  rcases run' x s with ⟨r, u⟩ | p
+  · exact fun a b => ⟨a, b⟩
+  · exact fun a b => ⟨a, b⟩
+
+/-- **SMP TLV processing cannot panic from a well-formed state** (protocol version set, stored SMP
+    values present, our own `Pb`/`Qb` invertible), given that `ModInverse` succeeds on non-multiples of
+    `p`; well-formedness is preserved. -/
+theorem processSMPTLV_safe (K : Crypto) (t : Tlv) (s : MState)
+    (hwf : SmpWF s.conv) (hnum : SmpNumWF K s.conv) (hv : s.conv.version ≠ none)
+    (hinv : ∀ a, a % dhP ≠ 0 → K.modInv a dhP ≠ none) :
+    wp (processSMPTLV K t) (fun _ s' => SmpWF s'.conv ∧ SmpNumWF K s'.conv) (fun _ => False) s := by
+  rw [processSMPTLV_eq]
+  simp only [setSmpState, smpIsGroupElement]
+  repeat' (first
+    | simp only [wp_bind, wp_getc, wp_modc, wp_ite', wp_pure, wp_throw, wp_ev, wp_goPanic]
+    | refine ⟨fun _ => ?_, fun _ => ?_⟩
+    | split)
+  all_goals first
+    | exact hv ‹s.conv.version = none›
+    | skip
+  all_goals
+    refine smpBody_safe' K t _ _ _ rfl ?_ ?_ ?_ hinv ?_
+    · first
+        | exact hwf
+        | (simp_all [SmpWF]; done)
+    · exact hnum
+    · exact hv
+    · first
+        | exact isGroupElement_mod
+        | (intro n hn; simpa using hn)
+
+
+/-! ### the whole data path from a well-formed state -/
+
+/-- loop of `processTLVs` with an arbitrary invariant that `processSMPTLV` and the disconnect TLV preserve -/
+theorem processTLVs_gen (K : Crypto) (tlvs : List Tlv) (x : Bytes) (I : Conv → Prop) (S : String → Prop)
+    (hdisc : ∀ c, I c → I { c with lastMessageStateChange := none, msgState := .finished, smp := {}, ake := none, keys := {} })
+    (hsmp : ∀ t s, I s.conv → wp (processSMPTLV K t) (fun _ s' => I s'.conv) S s)
+    (hlen : ∀ t ∈ tlvs, t.value.length = t.len) (s : MState) (h : I s.conv) :
+    wp (processTLVs K tlvs x) (fun _ s' => I s'.conv) S s := by
+  unfold processTLVs
+  simp only [wp_bind]
+  refine wp_mono _ (fun _ s' => I s'.conv) _ _ _ _ ?_ ?_ (fun _ h => h)
+  · apply wp_forIn _ _ (fun s' => I s'.conv)
+    · intro t ht g s1 h1
+      simp only [processDisconnectedTLV, processExtraSymmetricKeyTLV, secEvent]
+      repeat' (first
+        | simp only [wp_bind, wp_getc, wp_modc, wp_ite', wp_pure, wp_throw, wp_ev, wp_goPanic]
+        | refine ⟨fun _ => ?_, fun _ => ?_⟩
+        | split)
+      all_goals first
+        | exact h1
+        | exact hdisc _ h1
+        | (exfalso; have := hlen t ht; omega)
+        | skip
+      refine wp_mono _ _ _ _ _ _ (hsmp t s1 h1) ?_ (fun _ hs => hs)
+      intro r s2 h2
+      cases r with
+      | error e => exact h2
+      | ok a => cases a <;> exact h2
+    · exact h
+  · intro r s' h'
+    cases r with
+    | ok a => exact h'
+    | error e => exact h'
+
+theorem tailRest_gen (K : Crypto) (tlvs : List Tlv) (x : Bytes) (I : Conv → Prop) (S : String → Prop)
+    (hdisc : ∀ c, I c → I { c with lastMessageStateChange := none, msgState := .finished, smp := {}, ake := none, keys := {} })
+    (hsmp : ∀ t s, I s.conv → wp (processSMPTLV K t) (fun _ s' => I s'.conv) S s)
+    (hgen : ∀ c c', GenRel c c' → I c → I c')
+    (hlen : ∀ t ∈ tlvs, t.value.length = t.len) (s : MState) (h : I s.conv) :
+    wp (tailRest K tlvs x) (fun _ s' => I s'.conv)
+      (fun site => S site ∨ ∃ c, I c ∧ genSites c site) s := by
+  unfold tailRest
+  rw [wp_bind]
+  refine wp_mono _ _ _ _ _ _ (processTLVs_gen K tlvs x I S hdisc hsmp hlen s h) ?_ (fun _ h => Or.inl h)
+  intro r s1 h1
+  cases r with
+  | error e => exact h1
+  | ok replies =>
+    simp only [wp_ite', wp_pure, wp_bind]
+    refine ⟨fun _ => ?_, fun _ => h1⟩
+    refine wp_mono _ _ _ _ _ _ (genDataMsgWithFlag_spec K _ _ _ s1) ?_ (fun _ hs => Or.inr ⟨_, h1, hs⟩)
+    intro r s2 hg
+    have h2 : I s2.conv := hgen _ _ hg h1
+    cases r with
+    | error e => exact h2
+    | ok a =>
+      simp only [wrapMessageHeader, wp_bind, wp_pure]
+      refine wp_mono _ _ _ _ _ _ (messageHeader_frame _ s2) ?_ ?_
+      · intro r s3 ⟨hf, _⟩
+        have h3 : I s3.conv := hgen _ _ hf.genRel h2
+        cases r <;> exact h3
+      · intro site ⟨hs1, hs2⟩
+        right
+        exact ⟨s2.conv, h2, Or.inl ⟨hs1, hs2⟩⟩
+
+theorem tail_gen (K : Crypto) (dm : DataMsg) (tlvs : List Tlv) (x : Bytes) (I : Conv → Prop) (S : String → Prop)
+    (hdisc : ∀ c, I c → I { c with lastMessageStateChange := none, msgState := .finished, smp := {}, ake := none, keys := {} })
+    (hsmp : ∀ t s, I s.conv → wp (processSMPTLV K t) (fun _ s' => I s'.conv) S s)
+    (hgen : ∀ c c', GenRel c c' → I c → I c')
+    (hlen : ∀ t ∈ tlvs, t.value.length = t.len) (s : MState)
+    (hrot1 : ∀ np, I { s.conv with keys := (s.conv.keys.rotateOurKeys K dm.recipientKeyID np).1 })
+    (hrot2 : ∀ np, I { s.conv with keys :=
+        ((s.conv.keys.rotateOurKeys K dm.recipientKeyID np).1).rotateTheirKey dm.senderKeyID dm.y }) :
+    wp (processDataMessageTail K dm tlvs x) (fun _ s' => I s'.conv)
+      (fun site => S site ∨ ∃ c, I c ∧ genSites c site) s := by
+  have hrest : ∀ s1 : MState, I s1.conv →
+      wp (tailRest K tlvs x) (fun _ s' => I s'.conv)
+        (fun site => S site ∨ ∃ c, I c ∧ genSites c site) s1 :=
+    fun s1 h1 => tailRest_gen K tlvs x I S hdisc hsmp hgen hlen s1 h1
+  unfold tailRest at hrest
+  unfold processDataMessageTail
+  simp only [wp_bind, wp_getc, wp_ite', wp_modc, wp_throw, wp_pure] at hrest ⊢
+  refine ⟨fun _ => ?_, fun _ => ?_⟩
+  · apply wp_randRead
+    intro np s1 hc he
+    simp only [wp_bind, wp_modc]
+    split
+    · simp only [wp_bind, wp_throw]
+      simp only [hc]
+      exact hrot1 np
+    · simp only [wp_bind, wp_modc, wp_ite', wp_pure]
+      refine hrest _ ?_
+      simp only [hc]; exact hrot2 np
+  · split
+    · simp only [wp_bind, wp_throw]
+      exact hrot1 none
+    · simp only [wp_bind, wp_modc, wp_ite', wp_pure]
+      exact hrest ⟨_, s.env, s.events, s.mismatch⟩ (hrot2 none)
+
+
+/-- well-formedness of an encrypted conversation as far as the data path is concerned -/
+def FullWF (K : Crypto) (c : Conv) : Prop := SmpWF c ∧ SmpNumWF K c ∧ DataWF c
+
+theorem FullWF.of_smp_eq (K : Crypto) {c c' : Conv} (hs : c'.smp = c.smp) (hd : DataWF c') (h : FullWF K c) :
+    FullWF K c' := by
+  refine ⟨?_, ?_, hd⟩
+  · have := h.1; unfold SmpWF at *; rw [hs]; exact this
+  · have := h.2.1; unfold SmpNumWF at *; rw [hs]; exact this
+
+theorem FullWF.smpTLV (K : Crypto) (hinv : ∀ a, a % dhP ≠ 0 → K.modInv a dhP ≠ none) (t : Tlv) (s : MState)
+    (h : FullWF K s.conv) :
+    wp (processSMPTLV K t) (fun _ s' => FullWF K s'.conv) (fun _ => False) s := by
+  have h1 := processSMPTLV_safe K t s h.1 h.2.1 h.2.2.1 hinv
+  have h2 := processSMPTLV_frame K t s
+  refine wp_mono _ _ _ _ _ _ (wp_and _ _ _ _ _ _ h1 h2) ?_ (fun _ hs => hs.1)
+  intro r s' ⟨⟨ha, hb⟩, hf⟩
+  exact ⟨ha, hb, hf.inv DataWF.tlvInv h.2.2⟩
+
+theorem tail_safe (K : Crypto) (hinv : ∀ a, a % dhP ≠ 0 → K.modInv a dhP ≠ none)
+    (dm : DataMsg) (tlvs : List Tlv) (x : Bytes) (hlen : ∀ t ∈ tlvs, t.value.length = t.len)
+    (s : MState) (h : FullWF K s.conv) (hcur : s.conv.keys.ourCur ≠ none) :
+    wp (processDataMessageTail K dm tlvs x) (fun _ s' => FullWF K s'.conv) (fun _ => False) s := by
+  refine wp_mono _ _ _ _ _ _ (tail_gen K dm tlvs x (FullWF K) (fun _ => False) ?_ (FullWF.smpTLV K hinv) ?_ hlen s ?_ ?_)
+    (fun _ _ h => h) ?_
+  · intro c hc
+    refine ⟨by simp [SmpWF], by simp [SmpNumWF], DataWF.tlvInv.disc c hc.2.2⟩
+  · intro c c' hg hc
+    exact FullWF.of_smp_eq K hg.2.2.1 (DataWF.gen c c' hg hc.2.2) hc
+  · intro np
+    refine FullWF.of_smp_eq K (c := s.conv) rfl ⟨h.2.2.1, fun _ => ?_⟩ h
+    exact rotateOurKeys_ourCur K _ _ _ hcur
+  · intro np
+    refine FullWF.of_smp_eq K (c := s.conv) rfl ⟨h.2.2.1, fun _ => ?_⟩ h
+    show (Keys.rotateTheirKey _ _ _).ourCur ≠ none
+    rw [rotateTheirKey_ourCur]
+    exact rotateOurKeys_ourCur K _ _ _ hcur
+  · intro site hs
+    rcases hs with hs | ⟨c, hc, hg⟩
+    · exact hs
+    · rcases hg with ⟨_, h2⟩ | ⟨_, h2, h3⟩
+      · exact absurd h2 hc.2.2.1
+      · exact absurd h3 (hc.2.2.2 h2)
+
+end ConvData
+open ConvData
+
+/-- **C13 for data messages.**  From a well-formed state — protocol version set, current DH key pair
+    present, SMP context consistent (`SmpWF`), our own SMP values `Pb`, `Qb` invertible (`SmpNumWF`) — and
+    with `ModInverse` succeeding on every non-multiple of `p`, `processDataMessageRaw` does not panic on
+    any input whatsoever, and the final state is again well-formed. -/
+theorem c13_raw_no_panic (K : Crypto) (header msg : Bytes) (s : MState)
+    (hinv : ∀ a, a % dhP ≠ 0 → K.modInv a dhP ≠ none)
+    (hwf : SmpWF s.conv) (hnum : SmpNumWF K s.conv)
+    (hver : s.conv.version ≠ none) (hcur : s.conv.keys.ourCur ≠ none) :
+    ∃ r s', run' (processDataMessageRaw K header msg) s = .ok (.ok r, s') ∧
+      SmpWF s'.conv ∧ SmpNumWF K s'.conv ∧ s'.conv.version ≠ none ∧
+      (s'.conv.msgState = .encrypted → s'.conv.keys.ourCur ≠ none) := by
+  have hfull : FullWF K s.conv := ⟨hwf, hnum, hver, fun _ => hcur⟩
+  by_cases hA : ∃ dm sk, Accepts K header msg s dm sk
+  · obtain ⟨dm, sk, hA⟩ := hA
+    rw [raw_of_accepts K header msg s dm sk hA, acceptCont_run]
+    have ht := tail_safe K hinv dm _ sk.extraKey (plainDataMsg_tlvs_length (plainBytesOf K sk dm))
+      (if (PlainDataMsg.deserialize (plainBytesOf K sk dm)).1.message.isEmpty
+        then { acceptState s dm sk with events := (acceptState s dm sk).events ++ ["msg:10"] }
+        else acceptState s dm sk)
+      (by split <;> exact FullWF.of_smp_eq K (c := s.conv) rfl ⟨hver, fun _ => hcur⟩ hfull)
+      (by split <;> exact hcur)
+    unfold wp at ht
+    split
+    · rename_i heq; rw [heq] at ht; exact ⟨_, _, rfl, ht.1, ht.2.1, ht.2.2.1, ht.2.2.2⟩
+    · rename_i heq; rw [heq] at ht; exact ⟨_, _, rfl, ht.1, ht.2.1, ht.2.2.1, ht.2.2.2⟩
+    · rename_i heq; rw [heq] at ht; exact ht.elim
+  · obtain ⟨e, t, hr, _, _, _, hc⟩ := raw_of_not_accepts K header msg s hA
+    refine ⟨_, t, hr, ?_⟩
+    rcases hc with hc | ⟨dm, _, hc⟩
+    · rw [hc]; exact ⟨hwf, hnum, hver, fun _ => hcur⟩
+    · rw [hc]; exact ⟨hwf, hnum, hver, fun _ => hcur⟩
+
+
+namespace ConvData
+
+/-! ### `receiveDataMessage` from a well-formed state -/
+
+theorem notifyState_fullWF (K : Crypto) (e : Err) (s : MState) (h : FullWF K s.conv) :
+    FullWF K (notifyState e s).conv := by
+  unfold notifyState withErrorReply
+  repeat' split
+  all_goals first
+    | exact h
+    | exact FullWF.of_smp_eq K (c := s.conv) rfl h.2.2 h
+
+theorem potentialHeartbeat_safe (K : Crypto) (plain : Option Bytes) (s : MState) (h : FullWF K s.conv) :
+    wp (potentialHeartbeat K plain) (fun _ s' => FullWF K s'.conv) (fun _ => False) s := by
+  unfold potentialHeartbeat
+  simp only [wp_ite', wp_pure, wp_bind, wp_getc, wp_now]
+  refine ⟨fun _ => h, fun _ => ⟨fun _ => h, fun _ => ?_⟩⟩
+  refine wp_mono _ _ _ _ _ _ (genDataMsgWithFlag_spec K _ _ _ s) ?_ ?_
+  · intro r s1 hg
+    have h1 : FullWF K s1.conv := FullWF.of_smp_eq K hg.2.2.1 (DataWF.gen _ _ hg h.2.2) h
+    cases r with
+    | error e => exact h1
+    | ok a =>
+      simp only [wrapMessageHeader, wp_bind, wp_pure]
+      refine wp_mono _ _ _ _ _ _ (messageHeader_frame _ s1) ?_ ?_
+      · intro r s2 ⟨hf, _⟩
+        have hg2 := hf.genRel
+        have h2 : FullWF K s2.conv := FullWF.of_smp_eq K hg2.2.2.1 (DataWF.gen _ _ hg2 h1.2.2) h1
+        cases r with
+        | error e => exact h2
+        | ok hdr =>
+          simp only [updateLastSent, msgEvent]
+          wp_exec
+          exact FullWF.of_smp_eq K (c := s2.conv) rfl h2.2.2 h2
+      · intro site ⟨_, hv⟩
+        exact h1.2.2.1 hv
+  · intro site hs
+    rcases hs with ⟨_, h2⟩ | ⟨_, h2, h3⟩
+    · exact h.2.2.1 h2
+    · exact h.2.2.2 h2 h3
+
+end ConvData
+open ConvData
+
+/-- **C13 for `receiveDataMessage`.**  From a well-formed state (as in `c13_raw_no_panic`) the whole
+    data-message receive path — guards, TLVs, SMP, reply, error notification, heartbeat — ends without
+    panic and without a thrown error, in a well-formed state. -/
+theorem c13_receiveDataMessage_no_panic (K : Crypto) (header body : Bytes) (s : MState)
+    (hinv : ∀ a, a % dhP ≠ 0 → K.modInv a dhP ≠ none)
+    (hwf : SmpWF s.conv) (hnum : SmpNumWF K s.conv)
+    (hver : s.conv.version ≠ none) (hcur : s.conv.keys.ourCur ≠ none) :
+    ∃ r s', run' (receiveDataMessage K header body) s = .ok (.ok r, s') ∧
+      SmpWF s'.conv ∧ SmpNumWF K s'.conv ∧ s'.conv.version ≠ none ∧
+      (s'.conv.msgState = .encrypted → s'.conv.keys.ourCur ≠ none) := by
+  obtain ⟨r, s1, hr, h1⟩ := c13_raw_no_panic K header body s hinv hwf hnum hver hcur
+  have hf1 : FullWF K s1.conv := ⟨h1.1, h1.2.1, h1.2.2.1, h1.2.2.2⟩
+  have key : wp (receiveDataMessage K header body)
+      (fun r s' => (∃ a, r = .ok a) ∧ FullWF K s'.conv) (fun _ => False) s := by
+    unfold receiveDataMessage
+    rw [wp_bind]
+    unfold wp
+    rw [hr]
+    simp only []
+    show wp _ _ _ s1
+    split
+    · simp only [wp_bind, wp_pure]
+      unfold wp
+      rw [run'_notify]
+      exact ⟨⟨_, rfl⟩, notifyState_fullWF K _ _ hf1⟩
+    · simp only [wp_bind, wp_tryCatch, wp_pure]
+      refine wp_mono _ _ _ _ _ _ (potentialHeartbeat_safe K _ s1 hf1) ?_ (fun _ h => h)
+      intro r s2 h2
+      cases r with
+      | ok a => exact ⟨⟨_, rfl⟩, h2⟩
+      | error e =>
+        simp only [wp_bind, wp_pure]
+        unfold wp
+        rw [run'_notify]
+        exact ⟨⟨_, rfl⟩, notifyState_fullWF K _ _ h2⟩
+  unfold wp at key
+  split at key
+  · rename_i r' s' heq
+    obtain ⟨⟨a, ha⟩, hf⟩ := key
+    subst ha
+    exact ⟨a, s', heq, hf.1, hf.2.1, hf.2.2.1, hf.2.2.2⟩
+  · exact key.elim
+
+
+namespace ConvData
+
+/-! ### where `SmpNumWF` comes from: validated message 1, then our own message 2 -/
+
+/-- the message-1 values kept while waiting for the user's secret were validated as group elements -/
+def SmpWaitWF (c : Conv) : Prop :=
+  ∀ m, c.smp.state = some (.waitingForSecret m) → m.g2a % dhP ≠ 0 ∧ m.g3a % dhP ≠ 0
+
+theorem smp1Verify_ge (K : Crypto) (isGE : Nat → Bool) (m : Smp1Msg)
+    (h : smp1Verify K isGE m = true) : isGE m.g2a = true ∧ isGE m.g3a = true := by
+  unfold smp1Verify at h
+  simp only [Bool.and_eq_true] at h
+  exact ⟨h.1.1.1, h.1.1.2⟩
+
+theorem smpBody_wait (K : Crypto) (t : Tlv) (st : SmpState) (isGE : Nat → Bool) (s : MState)
+    (hge : ∀ n, isGE n = true → n % dhP ≠ 0) (h : SmpWaitWF s.conv) :
+    wp (smpBody K t st isGE) (fun _ s' => SmpWaitWF s'.conv) (fun _ => True) s := by
+  unfold smpBody
+  simp only [setSmpState, smpEvent, smpEventQ, smpWipe, smpAbortWith, optNat, paramLen]
+  wp_exec
+  all_goals first
+    | trivial
+    | exact h
+    | (simp [SmpWaitWF]; done)
+    | skip
+  all_goals
+    have hv := smp1Verify_ge K isGE _ (of_not_bnot _ ‹¬(!smp1Verify K isGE _) = true›)
+    intro m hm
+    simp only [Option.some.injEq, SmpState.waitingForSecret.injEq] at hm
+    subst hm
+    exact ⟨hge _ hv.1, hge _ hv.2⟩
+
+
+theorem processSMPTLV_wait (K : Crypto) (t : Tlv) (s : MState) (h : SmpWaitWF s.conv) :
+    wp (processSMPTLV K t) (fun _ s' => SmpWaitWF s'.conv) (fun _ => True) s := by
+  rw [processSMPTLV_eq]
+  simp only [setSmpState, smpIsGroupElement]
+  repeat' (first
+    | simp only [wp_bind, wp_getc, wp_modc, wp_ite', wp_pure, wp_throw, wp_ev, wp_goPanic]
+    | refine ⟨fun _ => ?_, fun _ => ?_⟩
+    | split)
+  all_goals first
+    | trivial
+    | skip
+  all_goals
+    refine smpBody_wait K t _ _ _ ?_ ?_
+    · first
+        | exact isGroupElement_mod
+        | (intro n hn; simpa using hn)
+    · first
+        | exact h
+        | (simp [SmpWaitWF]; done)
+
+/-- hypotheses on the group arithmetic under which our own SMP values are invertible:
+    `ModInverse` succeeds off the multiples of `p`, exponentiation and multiplication stay off the
+    multiples of `p` (i.e. `p` is prime and `gexp` is exponentiation mod `p`) -/
+structure GroupOK (K : Crypto) : Prop where
+  inv : ∀ a, a % dhP ≠ 0 → K.modInv a dhP ≠ none
+  exp : ∀ b e, b % dhP ≠ 0 → K.gexp b e % dhP ≠ 0
+  mul : ∀ a b, a % dhP ≠ 0 → b % dhP ≠ 0 → a * b % dhP ≠ 0
+  gen : dhG % dhP ≠ 0
+
+theorem smp2Gen_num (K : Crypto) (hK : GroupOK K) (y : Nat) (m1 : Smp1Msg) (b2 b3 r2 r3 r4 r5 r6 : Nat)
+    (h2 : m1.g2a % dhP ≠ 0) (h3 : m1.g3a % dhP ≠ 0) :
+    K.modInv (smp2Gen K y m1 b2 b3 r2 r3 r4 r5 r6).qb dhP ≠ none ∧
+    K.modInv (smp2Gen K y m1 b2 b3 r2 r3 r4 r5 r6).pb dhP ≠ none := by
+  constructor
+  · apply hK.inv
+    show mulModP (gexp1 K r4) (K.gexp (K.gexp m1.g2a b2) y) % dhP ≠ 0
+    unfold mulModP gexp1
+    rw [Nat.mod_mod]
+    exact hK.mul _ _ (hK.exp _ _ hK.gen) (hK.exp _ _ (hK.exp _ _ h2))
+  · apply hK.inv
+    show K.gexp (K.gexp m1.g3a b3) r4 % dhP ≠ 0
+    exact hK.exp _ _ (hK.exp _ _ h3)
+
+/-- `continueSMP` establishes `SmpNumWF` for the message-2 state it stores -/
+theorem continueSMP_num (K : Crypto) (hK : GroupOK K) (secret : Bytes) (s : MState)
+    (hw : SmpWaitWF s.conv) (hn : SmpNumWF K s.conv) :
+    wp (continueSMP K secret) (fun _ s' => SmpNumWF K s'.conv ∧ SmpWaitWF s'.conv) (fun _ => True) s := by
+  unfold continueSMP
+  simp only [wp_bind, wp_getc]
+  split
+  · rename_i m1 hst
+    obtain ⟨h2, h3⟩ := hw m1 hst
+    simp only [wp_bind, wp_ite', wp_modc, wp_throw]
+    refine ⟨fun _ => ⟨hn, by simp [SmpWaitWF]⟩, fun _ => ?_⟩
+    apply smpSecretFor_conv
+    intro r
+    cases r with
+    | error e => exact ⟨hn, hw⟩
+    | ok sec =>
+      simp only [paramLen, smpEvent]
+      wp_exec
+      all_goals first
+        | trivial
+        | exact ⟨hn, hw⟩
+        | (intro hx; simp at hx; done)
+        | (intro hx
+           simp only [Option.some.injEq] at hx
+           subst hx
+           exact smp2Gen_num K hK _ _ _ _ _ _ _ _ _ h2 h3)
+        | (intro hx
+           refine hn _ ?_
+           rw [← hx]
+           simp only [*])
+        | skip
+  · simp only [wp_bind, wp_modc, wp_throw]
+    exact ⟨hn, by simp [SmpWaitWF]⟩
+
+
+/-- `SmpNumWF ∧ SmpWaitWF` -/
+def SmpNW (K : Crypto) (c : Conv) : Prop := SmpNumWF K c ∧ SmpWaitWF c
+
+theorem SmpNW.of_smp_eq (K : Crypto) {c c' : Conv} (hs : c'.smp = c.smp) (h : SmpNW K c) : SmpNW K c' := by
+  unfold SmpNW SmpNumWF SmpWaitWF at *
+  rw [hs]; exact h
+
+theorem createSDM_nw (K : Crypto) (msg : Bytes) (flag : Nat) (tlvs : List Tlv) (s : MState) (h : SmpNW K s.conv) :
+    wp (createSerializedDataMessage K msg flag tlvs) (fun _ s' => SmpNW K s'.conv) (fun _ => True) s := by
+  refine wp_mono _ _ _ _ _ _ (createSDM_smp K msg flag tlvs s) ?_ (fun _ h => h)
+  intro r s' hs
+  exact SmpNW.of_smp_eq K hs h
+
+theorem startAuthenticateExpect1_nw (K : Crypto) (question secret : Bytes) (s : MState) (h : SmpNW K s.conv) :
+    wp (startAuthenticateExpect1 K question secret) (fun _ s' => SmpNW K s'.conv) (fun _ => True) s := by
+  unfold startAuthenticateExpect1
+  simp only [wp_bind, wp_getc, wp_ite', wp_throw]
+  refine ⟨fun _ => h, fun _ => ?_⟩
+  apply smpSecretFor_conv
+  intro r
+  cases r with
+  | error e => exact h
+  | ok sec =>
+    simp only [paramLen]
+    wp_exec
+    all_goals first
+      | trivial
+      | exact h
+      | (intro hx; simp at hx; done)
+      | (intro hx
+         refine h.1 _ ?_
+         rw [← hx]
+         simp only [*])
+      | (intro hx
+         refine h.2 _ ?_
+         rw [← hx]
+         simp only [*])
+      | skip
+
+theorem startAuthenticate_nw (K : Crypto) (question secret : Bytes) (s : MState) (h : SmpNW K s.conv) :
+    wp (startAuthenticate K question secret) (fun _ s' => SmpNW K s'.conv) (fun _ => True) s := by
+  unfold startAuthenticate
+  simp only [wp_bind, wp_getc]
+  wp_exec
+  all_goals
+    refine wp_mono _ _ _ _ _ _ (startAuthenticateExpect1_nw K _ _ _ ?_) ?_ (fun _ h => h)
+    · first
+        | exact h
+        | exact ⟨h.1, by simp [SmpWaitWF]⟩
+    · intro r s2 h2
+      cases r with
+      | error e => exact h2
+      | ok a =>
+        refine wp_mono _ _ _ _ _ _ (createSDM_nw K _ _ _ s2 h2) ?_ (fun _ h => h)
+        intro r s3 h3
+        cases r <;> exact h3
+
+theorem provideAuthenticationSecret_nw (K : Crypto) (hK : GroupOK K) (secret : Bytes) (s : MState)
+    (h : SmpNW K s.conv) :
+    wp (provideAuthenticationSecret K secret) (fun _ s' => SmpNW K s'.conv) (fun _ => True) s := by
+  unfold provideAuthenticationSecret
+  rw [wp_bind]
+  refine wp_mono _ _ _ _ _ _ (continueSMP_num K hK secret s h.2 h.1) ?_ (fun _ h => h)
+  intro r s2 h2
+  cases r with
+  | error e => exact h2
+  | ok a =>
+    simp only [wp_bind, wp_pure]
+    refine wp_mono _ _ _ _ _ _ (createSDM_nw K _ _ _ s2 h2) ?_ (fun _ h => h)
+    intro r s3 h3
+    cases r <;> exact h3
+
+theorem abortAuthentication_nw (K : Crypto) (s : MState) (h : SmpNW K s.conv) :
+    wp (abortAuthentication K) (fun _ s' => SmpNW K s'.conv) (fun _ => True) s := by
+  unfold abortAuthentication
+  simp only [wp_bind, wp_modc, wp_pure]
+  refine wp_mono _ _ _ _ _ _ (createSDM_nw K _ _ _ _ ?_) ?_ (fun _ h => h)
+  · obtain ⟨hn, hw⟩ := h
+    exact ⟨hn, by simp [SmpWaitWF]⟩
+  · intro r s3 h3
+    cases r <;> exact h3
+
+/-- `processSMPTLV` preserves `SmpNW` from a well-formed state -/
+theorem processSMPTLV_nw (K : Crypto) (t : Tlv) (s : MState)
+    (hinv : ∀ a, a % dhP ≠ 0 → K.modInv a dhP ≠ none)
+    (hwf : SmpWF s.conv) (hv : s.conv.version ≠ none) (h : SmpNW K s.conv) :
+    wp (processSMPTLV K t) (fun _ s' => SmpNW K s'.conv) (fun _ => True) s := by
+  have h1 := processSMPTLV_safe K t s hwf h.1 hv hinv
+  have h2 := processSMPTLV_wait K t s h.2
+  refine wp_mono _ _ _ _ _ _ (wp_and _ _ _ _ _ _ h1 h2) ?_ (fun _ _ => trivial)
+  intro r s' ⟨⟨_, hb⟩, hc⟩
+  exact ⟨hb, hc⟩
+
+
+theorem SmpWaitWF.of_smp_eq {c c' : Conv} (hs : c'.smp = c.smp) (h : SmpWaitWF c) : SmpWaitWF c' := by
+  unfold SmpWaitWF at *; rw [hs]; exact h
+
+end ConvData
+open ConvData
+
+/-- `processDataMessageRaw` preserves `SmpWaitWF` (unconditionally) -/
+theorem raw_preserves_smpWaitWF (K : Crypto) (header msg : Bytes) (s s' : MState)
+    (r : Except Err (Option Bytes × Option Bytes × Option Err))
+    (h : SmpWaitWF s.conv) (hrun : run' (processDataMessageRaw K header msg) s = .ok (r, s')) :
+    SmpWaitWF s'.conv := by
+  by_cases hA : ∃ dm sk, Accepts K header msg s dm sk
+  · obtain ⟨dm, sk, hA⟩ := hA
+    rw [raw_of_accepts K header msg s dm sk hA, acceptCont_run] at hrun
+    have ht := tail_gen K dm (PlainDataMsg.deserialize (plainBytesOf K sk dm)).1.tlvs sk.extraKey
+      SmpWaitWF (fun _ => True)
+      (fun c _ => by simp [SmpWaitWF]) (fun t s h => processSMPTLV_wait K t s h)
+      (fun c c' hg hc => SmpWaitWF.of_smp_eq hg.2.2.1 hc)
+      (plainDataMsg_tlvs_length (plainBytesOf K sk dm))
+      (if (PlainDataMsg.deserialize (plainBytesOf K sk dm)).1.message.isEmpty
+        then { acceptState s dm sk with events := (acceptState s dm sk).events ++ ["msg:10"] }
+        else acceptState s dm sk)
+      (fun np => by split <;> exact SmpWaitWF.of_smp_eq (c := s.conv) rfl h)
+      (fun np => by split <;> exact SmpWaitWF.of_smp_eq (c := s.conv) rfl h)
+    unfold wp at ht
+    split at hrun
+    · rename_i heq; rw [heq] at ht
+      injection hrun with hrun; injection hrun with _ hrun; rw [← hrun]; exact ht
+    · rename_i heq; rw [heq] at ht
+      injection hrun with hrun; injection hrun with _ hrun; rw [← hrun]; exact ht
+    · injection hrun
+  · obtain ⟨e, t, hr, _, _, _, hc⟩ := raw_of_not_accepts K header msg s hA
+    rw [hr] at hrun
+    injection hrun with hrun; injection hrun with _ hrun; subst hrun
+    rcases hc with hc | ⟨dm, _, hc⟩
+    · rw [hc]; exact h
+    · rw [hc]; exact h
+
+
+namespace ConvData
 end ConvData
 end Otr
